@@ -13,7 +13,7 @@ CASE_TIMEOUT = 60
 MODEL_NEEDS_IMPL = True
 COQ_CHUNK = 20
 RULE = ('random programs as for C01 whose bodies also contain ! at the top level of a body, in disjunction branches and in then/else branches '
-        '(never inside a condition or under \\+), with predicates of 2-4 clauses, callers that have their own alternatives, leaf solution counts '
+        '(in a quarter of the programs ALSO inside conditions / under \\+ - a cut local to the condition, next to the transparent cuts the property is about: round 6), with predicates of 2-4 clauses, callers that have their own alternatives, leaf solution counts '
         '0/1/many, if-then-else and negation around. Compared as C01 (implementation / compiled-code model / SLD reference with cut). '
         'Non-trivial: the program contains a cut, some query has an answer, and the predicate with the cut has a later clause or a goal with '
         'several solutions to the left of the cut. Plus program shapes of lib/progs_shapes.py: clause bodies of 6-18 top-level goals (up to '
@@ -47,7 +47,7 @@ def gen(rng, tier):
     n = 220 if tier == 'quick' else 5000
     cases = []
     for _ in range(n):
-        o = progs.Opts(cut_tail=0.25, forwarders=0.2, open_leaves=0.5 if rng.random() < 0.2 else 0.0, control=rng.random() < 0.7, cut=True, opaque_cut=False, builtins=False)
+        o = progs.Opts(cut_tail=0.25, forwarders=0.2, open_leaves=0.5 if rng.random() < 0.2 else 0.0, control=rng.random() < 0.7, cut=True, opaque_cut=rng.random() < 0.25, builtins=False)
         p = progs.gen_program(rng, o)
         # force more cuts: append `, !` or prepend `!,` to some rule bodies
         cl = []
